@@ -210,6 +210,18 @@ static void vf_log(char const *fmt, ...)
     j->text[j->text_len] = 0;
 }
 
+/* keep the op log bounded in sweep cases: remember a position, rewind to it later */
+static inline uint32_t vf_log_mark(void) { return vf.jr->text_len; }
+static inline void vf_log_rewind(uint32_t mark)
+{
+    if (mark <= vf.jr->text_len)
+    {
+        vf.jr->text_len = mark;
+        vf.jr->text[mark] = 0;
+        vf.jr->truncated = 0;
+    }
+}
+
 /* ------------------------------------------------------------ violations */
 static void vf_viol(char const *key, char const *fmt, ...) __attribute__((format(printf, 2, 3)));
 static void vf_viol(char const *key, char const *fmt, ...)
@@ -433,16 +445,23 @@ int main(int argc, char **argv)
     {
         step = vf.nworkers;
         first = vf.worker;
-        if (spread) { step = total / spread ? total / spread : 1; first = 0; }
+        if (spread) { step = 1; first = 0; }
         if (vf.start > first)
         {
             uint64_t k = (vf.start - first + step - 1) / step;
             first += k * step;
         }
     }
-    for (uint64_t c = first; c < end && ran < vf.maxcases; c += step)
+    for (uint64_t ci = first; ci < end && ran < vf.maxcases; ci += step)
     {
         vf_rng r;
+        uint64_t c = ci;
+        if (spread && vf.only < 0)
+        {
+            /* coverage measurement: a pseudo-random spread over the plan (a fixed stride would alias with periodic plans) */
+            if (ran >= spread) { break; }
+            c = (uint64_t)(((unsigned __int128)(ran * 0x9E3779B97F4A7C15ULL + 0x1234567ULL) * total) >> 64);
+        }
         vf_rng_seed(&r, vf.seed, vf_hash_str(VF_PROP), c);
         vf.case_no = c;
         vf.case_viol = 0;
